@@ -869,9 +869,10 @@ Proof.
   destruct (estimate_indexing_kernels rounds h c) as [iks|]; [|discriminate].
   injection HL as HL. cbv [RepetitionExperimentKernel_estimate_tail]. rewrite HL.
   set (L := est_len rounds h c) in *.
-  destruct (Z.eqb_spec size (Z.quot size L * L)) as [E|E].
-  - split; [intros H; injection H as <-; exact E|]. intros ->. f_equal. rewrite Z.quot_mul by lia. reflexivity.
-  - split; [discriminate|]. intros ->. exfalso. apply E. rewrite Z.quot_mul by lia. reflexivity.
+  (* the quotient is Z.quot for `int(a / b)` and Z.div for `a // b`; both are exact on multiples *)
+  match goal with |- context [Z.eqb size ?rhs] => destruct (Z.eqb_spec size rhs) as [E|E] end.
+  - split; [intros H; injection H as <-; exact E|]. intros ->. f_equal. rewrite ?Z.quot_mul, ?Z.div_mul by lia. reflexivity.
+  - split; [discriminate|]. intros ->. exfalso. apply E. rewrite ?Z.quot_mul, ?Z.div_mul by lia. reflexivity.
 Qed.
 
 Lemma estimate_inverts rounds h c :
